@@ -206,6 +206,22 @@ def line_refs(line: str):
     return out
 
 
+# (round 2) A function file is read by Minecraft line by line, lines ending at \n, \r\n or \r ONLY (U+2028, U+2029, NEL, VT, FF,
+# FS, GS, RS are ordinary characters of a `say` text).  Every such line must be a command: its first word (after the `$` of a
+# macro line) is a command name, or the line is a `#` comment.  Written vocabulary (Java Edition 1.13 ... 1.21.x):
+COMMAND_WORDS = set("""advancement attribute ban ban-ip banlist bossbar clear clone damage data datapack debug defaultgamemode deop
+dialog difficulty effect enchant execute experience fetchprofile fill fillbiome forceload function gamemode gamerule give help item
+jfr kick kill list locate locatebiome loot me msg op pardon pardon-ip particle perf place placefeature playsound publish random
+recipe reload replaceitem return ride rotate save-all save-off save-on say schedule scoreboard seed setblock setidletimeout
+setworldspawn spawnpoint spectate spreadplayers stop stopsound stopwatch summon tag team teammsg teleport tell tellraw test tick
+time title tm tp transfer trigger version w waypoint weather whitelist worldborder xp""".split())
+MC_LINE_BREAK = re.compile(r"\r\n|\n|\r")
+
+
+def custom_commands(job) -> set:
+    return set(re.findall(r"^[ \t]*#command[ \t]+(\S+)", job.get("header") or "", re.M))
+
+
 EMBEDDED_REF = re.compile(r'(?<![a-z0-9_.\-])function (#?)([A-Za-z0-9_.\-]+:[A-Za-z0-9_./\-]+)')
 
 
@@ -241,6 +257,7 @@ def oracle(job, res) -> list[dict]:
     own = [n for n in [ns] + cfg["overrides"] if n not in cfg["links"]]
     fails = []
     src = (job.get("src") or "") + "\n" + (job.get("header") or "")
+    extra_commands = custom_commands(job)
     names_legal = (LEGAL_NS.match(ns) and all(legal_path(cfg[k]) for k in ("private", "load", "tick"))
                    and all(LEGAL_NS.match(o) for o in cfg["overrides"]))
 
@@ -265,10 +282,18 @@ def oracle(job, res) -> list[dict]:
             body = content
             if cfg["credits"]:
                 body = content.split("\n\n\n", 1)[0] if "\n\n\n" in content else content
-            lines = body.split("\n") if body else []
+            lines = MC_LINE_BREAK.split(body) if body else []
             for i, line in enumerate(lines):
                 if line == "":
                     fails.append(dict(kind="empty-line", path=path, line_no=i + 1))
+                    break
+                word = line.split(" ", 1)[0].lstrip("$")
+                if not line.startswith("#") and word not in COMMAND_WORDS and word not in extra_commands:
+                    # e.g. the tail of a `say` text that was cut at a character Python's splitlines() treats as a line end
+                    fails.append(dict(kind="not-a-command", path=path, line_no=i + 1, line=line[:300],
+                                      previous_line=lines[i - 1][:300] if i else None,
+                                      # JMC.put("abc") and friends: the user supplied exactly this line as one string
+                                      user_literal=any(q + line + q in src for q in ('"', "'"))))
                     break
                 if line != "" and (line.strip() == "" or re.search(r"(^| )run ?$", line)):
                     # a line that is not a command: blank, or an `execute ... run` with nothing after it
@@ -620,6 +645,33 @@ EMBEDDED_SHAPES = [
     ("click-override", 'function minecraft.go() { say "x"; }\nTextProp.clickCommand("p1", ()=>{ minecraft.go(); });\nfunction f() { Text.tellraw(@a, "&<p1>click"); }', "#override minecraft"),
     ("sign-click", 'function foo.bar() { say "x"; }\nItem.createSign(mySign, oak, "Sign", texts=["a","b"], onClick=()=>{ foo.bar(); });\nfunction f() { Item.give(mySign, @s); }'),
 ]
+# (round 2) characters that Python's str.splitlines() treats as line ends but Minecraft does not: inside a text they must stay
+# inside their command line (a split would leave the tail of the text as a line that is no command).  Raw and as escapes.
+LINE_CHARS = {"VT": ("\x0b", "\\x0b"), "FF": ("\x0c", "\\f"), "FS": ("\x1c", "\\x1c"), "GS": ("\x1d", "\\x1d"), "RS": ("\x1e", "\\x1e"),
+              "US": ("\x1f", "\\x1f"), "NEL": ("\x85", "\\x85"), "LS": ("\u2028", "\\u2028"), "PS": ("\u2029", "\\u2029"),
+              "TAB": ("\t", "\\t"), "NBSP": ("\xa0", "\\xa0"), "CR": ("\r", "\\r")}
+LINE_TEMPLATES = [
+    'function f() { say "a@C@b"; tellraw @a "c@C@d"; }',
+    'function f() { if ($x > 1) { say "head"; say "e@C@f tail"; } else { say "g@C@"; say "h"; } }',
+    'class k { function m() { execute as @a run { say "@C@lead"; say "x"; } } }\nPlayer.firstJoin(()=>{ say "i@C@j"; say "k"; });',
+    'function f() { say `\nmulti@C@line\n`; title @a title "t@C@u"; }',
+]
+
+
+def line_char_jobs(rng, tier):
+    out = []
+    k = 0
+    for name, (raw, esc) in LINE_CHARS.items():
+        for kind, text in (("raw", raw), ("esc", esc)):
+            tpls = LINE_TEMPLATES if tier != "quick" else [LINE_TEMPLATES[0], rng.choice(LINE_TEMPLATES[1:])]
+            for tpl in tpls:
+                k += 1
+                cert = CERTS[k % len(CERTS)]
+                out.append((f"linechar:{name}-{kind}", dict(src=tpl.replace("@C@", text), cert=cert_text(cert),
+                                                           pack_format=[48, 15, 61][k % 3], namespace=NAMESPACES[k % len(NAMESPACES)])))
+    return out
+
+
 # the accepted variants of every shape are compiled under these (pack_format, header) strategies, names rotate through CERTS
 EMPTY_STRATEGIES = [(15, None), (48, None), (48, "#forcebst"), (7, None), (61, None), (33, "#forcebst")]
 
@@ -735,17 +787,62 @@ HAND_PROBES = {
 }
 
 
-def probe_program(e, args):
-    call = f"{e['call_string']}({', '.join(f'{k}={v}' for k, v in args.items() if v != '')})"
+def probe_program(e, args, args2=None):
+    """one call of the built-in; with args2 a second call of the same built-in in the same pack (twin probe)"""
+    calls = [f"{e['call_string']}({', '.join(f'{k}={v}' for k, v in a.items() if v != '')})" for a in ([args] if args2 is None else [args, args2])]
     pre = 'function probe.target() { say "t1"; say "t2"; }\n'
     ft = e["func_type"]
     if ft in ("LOAD_ONLY", "LOAD_ONCE"):
-        return pre + call + ";"
+        return pre + "\n".join(c + ";" for c in calls)
     if ft in ("JMC_COMMAND", "EXECUTE_EXCLUDED"):
-        return pre + "class holder { function main() { " + call + "; } }"
+        return pre + "class holder { function main() { " + " ".join(c + ";" for c in calls) + " } }"
     if ft == "VARIABLE_OPERATION":
-        return pre + "function probe.main() { $r = " + call + "; }"
-    return pre + "function probe.main() { if (" + call + ') { say "a"; say "b"; } }'
+        return pre + "function probe.main() { " + " ".join(f"$r{i} = {c};" for i, c in enumerate(calls)) + " }"
+    return pre + "function probe.main() { " + " ".join("if (" + c + ') { say "a"; say "b"; }' for c in calls) + " }"
+
+
+def respellings(arg_type: str, v: str) -> list[str]:
+    """(round 2) other spellings of the SAME argument value: a helper that is created once per value but named after the
+    spelling (Entity.launch(2) / Entity.launch(2.0)) leaves the second spelling's call without a file."""
+    out = []
+    if arg_type in ("FLOAT", "INTEGER", "SCOREBOARD_INT") and re.fullmatch(r"-?\d+(\.\d+)?", v):
+        if "." in v:
+            out += [v + "0", v + "00", "0" + v if not v.startswith("-") else v]
+            if v.endswith(".0"):
+                out.append(v[:-2])
+        else:
+            out += ["0" + v if not v.startswith("-") else v] + ([v + ".0", v + ".00"] if arg_type == "FLOAT" else [])
+    elif arg_type == "STRING" and len(v) >= 2 and v[0] == v[-1] == '"' and "'" not in v:
+        out.append("'" + v[1:-1] + "'")
+    elif arg_type == "KEYWORD" and v.isidentifier():
+        out += [v.capitalize(), v.upper()]
+    elif arg_type in ("JSON", "JS_OBJECT", "LIST") and "=>" not in v:
+        out += [v.replace(",", " , ").replace(":", " : "), v.replace(", ", ",").replace(": ", ":")]
+    return [o for o in dict.fromkeys(out) if o != v]
+
+
+def twin_probe_jobs(rng, tier, registry, hits):
+    """For every built-in with a compiling probe: the same call twice in ONE pack, the second time with one argument
+    spelled differently but meaning the same (and the default left out vs written out), in both orders."""
+    out = []
+    by_name = {e["call_string"]: e for e in registry}
+    for name, job in hits.items():
+        e, args = by_name[name], job["_args"]
+        pairs = []
+        for k, v in args.items():
+            for alt in respellings(e["arg_type"][k], v):
+                pairs.append((k, args, dict(args, **{k: alt})))
+        for k, dv in e["defaults"].items():
+            if k in e["arg_type"] and dv != "":
+                base = {a: b for a, b in args.items() if a != k}
+                for alt in [dv] + respellings(e["arg_type"][k], dv):
+                    pairs.append((k, base, dict(base, **{k: alt})))
+        if tier == "quick" and len(pairs) > 3:
+            pairs = rng.sample(pairs, 3)
+        for k, a, b in pairs:
+            for order, (x, y) in (("ab", (a, b)), ("ba", (b, a))):
+                out.append((f"twin:{name}:{k}:{order}", dict(src=probe_program(e, x, y), pack_format=job["pack_format"], cert=job["cert"])))
+    return out
 
 
 def builtin_probe_jobs(registry, cert):
@@ -758,10 +855,10 @@ def builtin_probe_jobs(registry, cert):
         cands = [PROBE_SAMPLES[e["arg_type"][k]] for k in keys]
         jobs = []
         for combo in itertools.islice(itertools.product(*cands), 24):
-            jobs.append(dict(src=probe_program(e, dict(zip(keys, combo))), pack_format=48, cert=cert))
+            jobs.append(dict(src=probe_program(e, dict(zip(keys, combo))), pack_format=48, cert=cert, _args=dict(zip(keys, combo))))
         req = {k: PROBE_SAMPLES[e["arg_type"][k]][0] for k in keys if k not in e["defaults"]}
-        jobs.append(dict(src=probe_program(e, req), pack_format=48, cert=cert))
-        jobs.append(dict(src=probe_program(e, req), pack_format=15, cert=cert))
+        jobs.append(dict(src=probe_program(e, req), pack_format=48, cert=cert, _args=req))
+        jobs.append(dict(src=probe_program(e, req), pack_format=15, cert=cert, _args=req))
         out.append((e["call_string"], jobs))
     return out
 
@@ -868,6 +965,7 @@ def gather_jobs(ck, tier):
             if len(spec) > 2:
                 j["header"] = spec[2]
             jobs.append((f"probe2:{name}", j))
+    jobs.extend(line_char_jobs(rng, tier))
     n_rand2 = 90 if tier == "quick" else 900
     for i in range(n_rand2):
         cert = CERTS[(i + 2) % len(CERTS)]
@@ -927,12 +1025,14 @@ def main(tier: str) -> int:
     flat = [j for _, js in probes for j in js]
     pres = trace_jobs(flat, chunk=60)
     pos, n_probe_ok, probe_failed, n_emptied_probes = 0, 0, [], 0
+    probe_hits: dict = {}
     for name, js in probes:
         rs = pres[pos:pos + len(js)]
         pos += len(js)
         hit = next(((j, r) for j, r in zip(js, rs) if r["ok"]), None)
         if hit:
             n_probe_ok += 1
+            probe_hits[name] = hit[0]
             jobs.append((f"builtin:{name}", hit[0]))
             # strengthening round 1: the same probe with its arrow functions emptied, under both switch strategies and other names
             e_src = emptied(hit[0]["src"])
@@ -943,6 +1043,14 @@ def main(tier: str) -> int:
                 jobs.append((f"builtin:{name}@15", dict(hit[0], pack_format=15, cert=cert_text(CERTS[4]), namespace="mypack")))
         else:
             probe_failed.append(name)
+    # (round 2) twin probes: only the accepted ones are kept (a second call is often refused: duplicate id, load-once)
+    twins = twin_probe_jobs(ck.rng, tier, registry, probe_hits)
+    tres = trace_jobs([j for _, j in twins], chunk=60)
+    n_twin_ok = 0
+    for (origin, job), r in zip(twins, tres):
+        if r["ok"]:
+            n_twin_ok += 1
+            jobs.append((origin, job))
     results = trace_jobs([j for _, j in jobs])
 
     terms, tidx, unsupported = [], [], []
@@ -1017,6 +1125,8 @@ def main(tier: str) -> int:
         disagreements_checked=len(mism), undisciplined=len(ev["undisciplined"]), not_closed=len(ev["not_closed"]),
         failing_inputs=n_fail_inputs, user_literal_references_skipped=literal_skipped,
         empty_private_functions=empty_private_coverage(jobs, results), builtin_probes_emptied=n_emptied_probes,
+        twin_probes=dict(generated=len(twins), accepted=n_twin_ok,
+                         builtins=len({o.split(":")[1] for (o, _), r in zip(twins, tres) if r["ok"]})),
         convention_mode="strict (repaired)" if strict else "pinned (accepts 'a..b')",
         samples=[dict(origin=o, program=j["src"][:300], ops=len(r["ops"]), ok=r["ok"]) for (o, j), r in list(zip(jobs, results))[120:123]],
         correspondence="model verdict + complete file map (paths and contents) == real, per traced compile; disc/closedb/alloc_disc evaluated in Coq per trace; "
